@@ -9,6 +9,9 @@ class ModuleToPackage:
 
     def get_changes(self):
         changes = ChangeSet("Transform <%s> module to package" % self.resource.path)
+        if self.resource.project != self.project:
+            # the module lives outside this project: nothing here to change
+            return changes
         new_content = self._transform_relatives_to_absolute(self.resource)
         if new_content is not None:
             changes.add_change(ChangeContents(self.resource, new_content))
